@@ -211,6 +211,8 @@ func evalGen(tier string, r *rng, emit func(string)) {
 			fam = famRedef(r)
 		case prop == "C04" && i%2 == 1:
 			fam = famCache(r)
+		case prop == "C05" && i%4 == 3:
+			fam = famRegs2(r)
 		case prop == "C05" && i%2 == 1:
 			fam = famRegs(r)
 		case prop == "C07" && i%3 == 1:
@@ -221,6 +223,8 @@ func evalGen(tier string, r *rng, emit func(string)) {
 			fam = famRedef(r)
 		case prop == "C01" && i%8 == 1:
 			fam = famCache(r)
+		case prop == "C01" && i%16 == 13:
+			fam = famRegs2(r)
 		case prop == "C01" && i%8 == 5:
 			fam = famRegs(r)
 		}
